@@ -31,6 +31,11 @@ CHECKS["C03"] = dict(
  note="Safety layer exhaustive for <= 3 requests on a 6-request sub-graph; real graph exhaustive for <= 2 requests with the most aggressive settings; simulate beyond. Liveness only on the sub-graph; on the real code non-termination is caught by the wall-clock guard.",
  technique="TLA+ safety-layer/policy model of cache clean-up checked with TLC (safety + liveness); replay on the real code and TLC trace validation of every nested step",
  design_ref="DESIGN.md 4.1, 5/C03")
+CHECKS["C13"] = dict(
+ text="AurelStore.tla states the reference semantics of save_data/read_data (disk = iteration -> (variable, level) -> token naming which dictionary/column/position an array came from; a save files under iteration i the entry that belongs to i in the dictionary's 'it' column; None entries/columns skipped; calls selecting a foreign iteration may skip, raise or refuse but never file). TLC checks RoundTrip, ColumnsAligned, SaveIsLocal, NothingLost on the spec and enumerates every sequence of <= 2 saves over 4 dictionaries x 7 it-selections x 3 var-selections x 2 levels; every behaviour is executed with the real save_data (with and without trailing slash), every dataset of every it_*.hdf5 is decoded back to its token (content and dtype) and compared with the spec's disk, 3 read_data queries are compared with the spec's ReadResult, and all argument objects are deep-compared.",
+ note="Exhaustive within the stated alphabets for <= 2 saves (quick), 4 saves simulated (thorough). Trusted: h5py, the token encoding (self-checking: a dataset that does not decode is reported).",
+ technique="TLA+ reference model of the store model-checked with TLC; every behaviour replayed on the real save_data/read_data with the disk decoded back to spec tokens",
+ design_ref="DESIGN.md 4.2, 5/C13")
 
 NA = {
  "C17": "Closed-form transcendental solutions (sin, sinh, 2F1, t^(2/3)): no state, history or case analysis for a TLA+ specification to enumerate, and TLC has neither reals nor transcendental functions; a CAS/interval technique would be a different family (DESIGN.md section 6).",
